@@ -473,4 +473,117 @@ example : decide (exCfg "C" "B" [] [['x', '.', 'k']]) [("rs", 1)] = allow ∧
     decide (exCfg "D" "B" [] [['x', '.', 'k']]) [("rs", 1)] = deny .denyList :=
   ⟨by rfl, by rfl, by rfl⟩
 
+/-! ### What the bypass path suspends, and what it does not (all senders, all flags) -/
+
+/-- **On the bypass path** (context bypass, or the marker module / ibc transfer account as sender)
+**exactly one rule stays in force — the fee collector rule**; every other rule (withdraw authority,
+inactive marker keeps its own coins, deposit authority, transfer authority, deny list, required
+attributes, marker status) is suspended: any movement not addressed to the fee collector is allowed, and
+one addressed to it is allowed exactly when no coin is restricted. -/
+theorem bypass_suspends_all_but_feeCollector_rule (cfg : Cfg) (amt : Coins) (hb : onBypassPath cfg = true) :
+    (cfg.toAddr ≠ cfg.feeCollectorAddr → decide cfg amt = allow) ∧
+    (cfg.toAddr = cfg.feeCollectorAddr →
+      (decide cfg amt = allow ↔ ∀ c ∈ amt, Spec.isRestrictedCoin cfg c.1 = false)) := by
+  have h := bypass_path_allow_iff cfg amt hb
+  exact ⟨fun hne => h.mpr fun he => absurd he hne, fun he => by rw [h]; simp [he]⟩
+
+/-- The withdraw rule for EVERY sender kind and flag combination: coins leave a marker account only on
+the bypass path, with a fee grant in use, or with a transfer agent holding withdraw. -/
+theorem leaving_marker_rule_all_paths (cfg : Cfg) (amt : Coins) (m : Marker)
+    (hm : cfg.acct cfg.fromAddr = Acct.marker m) (ha : decide cfg amt = allow) :
+    onBypassPath cfg = true ∨ cfg.feeGrant = true ∨ ∃ a ∈ cfg.agents, Spec.hasAccess m a .withdraw = true := by
+  by_cases hb : onBypassPath cfg = true
+  · exact Or.inl hb
+  · exact Or.inr (leaving_marker_needs_withdraw_or_feegrant cfg amt m hm (by simpa using hb) ha)
+
+/-- The deposit rule for every sender kind and flag combination. -/
+theorem deposit_rule_all_paths (cfg : Cfg) (amt : Coins) (m : Marker)
+    (hm : cfg.acct cfg.toAddr = Acct.marker m) (hr : m.mtype = MType.restricted)
+    (ha : decide cfg amt = allow) :
+    onBypassPath cfg = true ∨
+    (cfg.agents = [] ∧ Spec.hasAccess m cfg.fromAddr .deposit = true) ∨
+    (∃ a ∈ cfg.agents, Spec.hasAccess m a .deposit = true) := by
+  by_cases hb : onBypassPath cfg = true
+  · exact Or.inl hb
+  · exact Or.inr (deposit_into_restricted_needs_deposit cfg amt m hm hr (by simpa using hb) ha)
+
+/-- The transfer-into-a-marker rule for every sender kind and flag combination. -/
+theorem restricted_coin_into_marker_rule_all_paths (cfg : Cfg) (amt : Coins) (tm mc : Marker)
+    (c : Denom × Int) (hc : c ∈ amt)
+    (htm : cfg.acct cfg.toAddr = Acct.marker tm)
+    (hmc : cfg.acct (cfg.markerAddr c.1) = Acct.marker mc) (hr : mc.mtype = MType.restricted)
+    (ha : decide cfg amt = allow) :
+    onBypassPath cfg = true ∨
+    (∃ a ∈ cfg.agents, Spec.hasAccess mc a .transfer = true) ∨
+    (cfg.fromAddr ∉ mc.deny ∧ Spec.hasAccess mc cfg.fromAddr .transfer = true) := by
+  by_cases hb : onBypassPath cfg = true
+  · exact Or.inl hb
+  · exact Or.inr (restricted_coin_into_marker_needs_transfer cfg amt tm mc c hc htm hmc hr (by simpa using hb) ha)
+
+/-- The bypass disjunct above is not an artefact: on the bypass path all three rules ARE suspended at
+once — a restricted coin leaves a marker account nobody may withdraw from (no agent, no fee grant) and
+enters a restricted marker account where the sender has neither deposit nor transfer rights; with the
+context flag as well as with the marker module or the ibc transfer account as the sender (then the
+sender is not a marker; deposit and transfer rules are suspended).  The callers of the bypass (marker
+module Withdraw / Transfer / IBC) check authority themselves — outside this model. -/
+theorem bypass_really_suspends_withdraw_deposit_transfer_rules :
+    let cfg : Cfg := { exCfg "mk:cn" "mk:rs" [] [] with bypass := true }
+    (∃ m, cfg.acct cfg.fromAddr = Acct.marker m ∧ ∀ a, Spec.hasAccess m a .withdraw = true → a = "G") ∧
+    cfg.feeGrant = false ∧ cfg.agents = [] ∧
+    (∃ tm, cfg.acct cfg.toAddr = Acct.marker tm ∧ tm.mtype = .restricted ∧
+      Spec.hasAccess tm cfg.fromAddr .deposit = false ∧ Spec.hasAccess tm cfg.fromAddr .transfer = false) ∧
+    decide cfg [("rs", 1)] = allow ∧
+    decide (exCfg "mod:marker" "mk:rs" [] []) [("rs", 1)] = allow ∧
+    decide (exCfg "mod:transfer" "mk:rs" [] []) [("rs", 1)] = allow ∧
+    decide (exCfg "mk:cn" "mk:rs" [] []) [("rs", 1)] = deny .withdrawNoAgent := by
+  refine ⟨⟨_, rfl, ?_⟩, rfl, rfl, ⟨_, rfl, rfl, by decide, by decide⟩, by rfl, by rfl, by rfl, by rfl⟩
+  intro a h
+  simp [Spec.hasAccess] at h
+  exact h.2.symm
+
+/-! ### The bypass accounts are the fixed set -/
+
+/-- The configuration the app runs with: `k.reqAttrBypassAddrs` is the fixed list of app/app.go:564-571
+(fee collector, quarantine, gov, distribution, bonded and not-bonded pools).  The correspondence driver
+builds every configuration with it (`parseCase_uses_fixed_bypass_set`) and the `bypasslist` op compares
+the set the real app hands to the marker keeper with it on every run. -/
+def AppBypassSet (cfg : Cfg) : Prop := cfg.reqAttrBypass = Spec.bypassAccounts
+
+theorem bypassAddr_iff_fixed_account (cfg : Cfg) (h : AppBypassSet cfg) (a : Addr) :
+    isReqAttrBypassAddr cfg a = true ↔
+      a = "fc" ∨ a = "bp:quarantine" ∨ a = "bp:gov" ∨ a = "bp:distribution" ∨ a = "bp:bonded" ∨
+      a = "bp:notbonded" := by
+  unfold isReqAttrBypassAddr
+  rw [h]
+  simp only [Spec.bypassAccounts, List.contains_iff_mem, List.mem_cons, List.not_mem_nil, or_false]
+  constructor
+  · rintro (h | h | h | h | h | h) <;> simp [h]
+  · rintro (h | h | h | h | h | h) <;> simp [h]
+
+/-- With the app's bypass set the attribute-bypass privilege belongs to the six fixed module accounts
+and nobody else: an ordinary send of an active restricted coin by a sender WITHOUT transfer rights is
+allowed exactly when the sender is not on the deny list, the receiver is not the fee collector, and —
+no required attributes — the sender is one of the six, or — required attributes — the receiver is one of
+the six (the fee collector being excluded above) or holds them all. -/
+theorem attribute_bypass_only_for_the_fixed_accounts (cfg : Cfg) (happ : AppBypassSet cfg)
+    (d : Denom) (a : Int) (m : Marker)
+    (hb : onBypassPath cfg = false) (hnoag : cfg.agents = [])
+    (hfrom : Spec.markerAt cfg cfg.fromAddr = none) (hto : Spec.markerAt cfg cfg.toAddr = none)
+    (hm : cfg.acct (cfg.markerAddr d) = Acct.marker m)
+    (hr : m.mtype = MType.restricted) (hact : m.status = MStatus.active)
+    (hnt : Spec.hasAccess m cfg.fromAddr .transfer = false) :
+    decide cfg [(d, a)] = allow ↔
+      cfg.toAddr ≠ cfg.feeCollectorAddr ∧ cfg.fromAddr ∉ m.deny ∧
+      ((m.reqAttrs = [] ∧ cfg.fromAddr ∈ Spec.bypassAccounts) ∨
+       (m.reqAttrs ≠ [] ∧ (cfg.toAddr ∈ Spec.bypassAccounts ∨
+          Spec.hasRequiredAttributes cfg m cfg.toAddr = true))) := by
+  rw [ordinary_restricted_send_iff cfg d a m hb hnoag hfrom hto hm hr hact, happ]
+  simp [hnt]
+
+/-- Every configuration the correspondence driver evaluates carries the fixed bypass set. -/
+example : AppBypassSet (exCfg "bp:gov" "B" [] []) ∧
+    decide (exCfg "bp:gov" "B" [] []) [("rs", 1)] = deny .attrs ∧
+    decide (exCfg "C" "bp:gov" [] []) [("rs", 1)] = allow :=
+  ⟨rfl, by rfl, by rfl⟩
+
 end PvProofs.C04
